@@ -211,6 +211,9 @@ func (c *Ctx) WatermarkConversions(prop string, s *Slashing, kind string) {
 							}
 						}
 					}
+					if fld != "" && onlyFeedsPutUint(cv) {
+						fld = "" // a field writer helper of the encoder: the two's complement is written on purpose (decode is its inverse, C11.O1)
+					}
 					if fld != "" {
 						nW++
 						x, path := an.Cut(an.CutQuery{From: an.Entry(fn), Target: func(i ssa.Instruction) bool { return i == ins },
